@@ -375,6 +375,7 @@ class Contract:
         self.replay_ensures = dict(replay_ensures or {})
         self.tiers = tiers
         self.harness = harness  # python source (in /verif) driving real functions/classes of the target module
+        self.native_env = None  # {name: python object}: native counterparts of the /verif helpers a harness uses (replay)
         self.block = block      # fn(FunctionDef) -> list of statements: verify a block inside a large function
         self.max_paths = max_paths
         self.bounded = bounded     # text of the bound when this unit is a bounded stand-in (not counted as proved)
@@ -771,6 +772,7 @@ def call_real(c, inputs):
         mod = importlib.import_module(c.relpath[:-3].replace('/', '.'))
         src = 'def __harness__(%s):\n' % ', '.join(names) + '\n'.join('    ' + l for l in c.harness.strip('\n').split('\n'))
         g = dict(mod.__dict__)
+        g.update(c.native_env or {})
         exec(compile(src, '<harness %s>' % c.name, 'exec'), g)
         try:
             r = g['__harness__'](*[native_arg(inputs[n]) for n in names])
